@@ -22,6 +22,8 @@ import (
 	"strings"
 	"time"
 
+	"github.com/go-critic/go-critic/checkers/rulesdata"
+
 	"verifharness/internal/common"
 	"verifharness/internal/coqfmt"
 	"verifharness/internal/exprgen"
@@ -36,6 +38,8 @@ func Run(tier string, seed int64, outDir string) *common.Meta {
 	runExprClaims(meta, seed, outDir, nExpr)
 	runCaseOrder(meta, seed, outDir, nSw)
 	runNilValReturn(meta, seed, outDir)
+	runRuleTable(meta, outDir)
+	runShadowed(meta, seed, outDir)
 	meta.Rule = "distinct_nontrivial = number of distinct generated expressions / type switches on which at least one of the claim-producing checkers fired (each compared with the model matcher in Coq and executed with instrumentation)"
 	return meta
 }
@@ -187,7 +191,21 @@ func genClaimExpr(g *exprgen.G, r interface{ Intn(int) int }) string {
 		if r.Intn(5) == 0 {
 			sy = pick("s", "t", `"a"`)
 		}
-		switch r.Intn(4) {
+		switch r.Intn(7) {
+		case 4, 5, 6:
+			// the method rules ($x.Equal($x), Equals, Compare, Cmp): identical receiver and argument, pure
+			// (variable, composite literal) or with effects (an iterator's Next)
+			rx := pick("vv", "it.Next()", "val{a}", "(vv)", "it.Next()", "val{fi()}")
+			ry := rx
+			if r.Intn(6) == 0 {
+				ry = pick("vv", "val{b}")
+			}
+			switch m := pick("Equal", "Equals", "Compare", "Cmp"); m {
+			case "Equal", "Equals":
+				e = rx + "." + m + "(" + ry + ")"
+			default:
+				e = rx + "." + m + "(" + ry + ") == 0"
+			}
 		case 0:
 			e = "strings.Contains(" + sx + ", " + sy + ")"
 		case 1:
@@ -397,7 +415,11 @@ func runExprClaims(meta *common.Meta, seed int64, outDir string, n int) {
 			dc.Expect = "true"
 		case "dupArg":
 			ce := node.(*ast.CallExpr)
-			dc.Orig = "fmt.Sprint(" + l.Text(ce.Args[0]) + ") == fmt.Sprint(" + l.Text(ce.Args[1]) + ")"
+			if len(ce.Args) == 1 { // method rule: receiver and argument
+				dc.Orig = "fmt.Sprint(" + l.Text(ce.Fun.(*ast.SelectorExpr).X) + ") == fmt.Sprint(" + l.Text(ce.Args[0]) + ")"
+			} else {
+				dc.Orig = "fmt.Sprint(" + l.Text(ce.Args[0]) + ") == fmt.Sprint(" + l.Text(ce.Args[1]) + ")"
+			}
 			dc.Expect = "true"
 		}
 		dc.Inputs = exprgen.Grid(rg, text, 120)
@@ -433,9 +455,9 @@ func runExprClaims(meta *common.Meta, seed int64, outDir string, n int) {
 	}
 }
 
-var outsideFragmentRe = regexp.MustCompile(`\b(ms|mi|mm|ma|pa|w|gxs|fa|mc|mc2|mf|mg|fmf)\b`)
+var outsideFragmentRe = regexp.MustCompile(`\b(ms|mi|mm|ma|pa|w|gxs|fa|mc|mc2|mf|mg|fmf|vv|it|val)\b`)
 
-var impureCallRe = regexp.MustCompile(`\b(fi|gi|hi|fu|ff|hf|fs|fb|fbs|fxs)\(`)
+var impureCallRe = regexp.MustCompile(`\b(fi|gi|hi|fu|ff|hf|fs|fb|fbs|fxs|fmf|Next)\(`)
 
 // findFlagged locates the expression a diagnostic is about: the outermost node of the right kind starting at pos.
 func findFlagged(l *exprgen.Linted, root ast.Expr, pos token.Pos, checker, msg string) ast.Expr {
@@ -454,8 +476,11 @@ func findFlagged(l *exprgen.Linted, root ast.Expr, pos token.Pos, checker, msg s
 				found = e
 			}
 		case "dupArg":
-			if ce, ok := e.(*ast.CallExpr); ok && len(ce.Args) == 2 {
-				found = e
+			if ce, ok := e.(*ast.CallExpr); ok {
+				_, isSel := ce.Fun.(*ast.SelectorExpr)
+				if len(ce.Args) == 2 || (len(ce.Args) == 1 && isSel) {
+					found = e
+				}
 			}
 		default:
 			if b, ok := e.(*ast.BinaryExpr); ok {
@@ -953,4 +978,130 @@ func renderNvr(name string, c *nvrCase) string {
 		pre += "\t\t" + p + "\n"
 	}
 	return fmt.Sprintf("func %s(%s) %s {\n\tif %s {\n%s\t\treturn %s\n\t}\n\treturn %s\n}\n", name, exprgen.Params, c.resT, c.cond, pre, strings.Join(c.rets, ", "), c.final)
+}
+
+// ---------------------------------------------------------------- the claim rules as the binary executes them
+
+var claimRuleGroups = map[string]bool{"sloppyLen": true, "offBy1": true, "dupArg": true}
+
+// runRuleTable compares the executed IR (rulesdata.PrecompiledRules: patterns, filter source, templates) of the
+// claim-producing rule groups with the model's copy (Model_Claims.claim_rules): a filter dropped from the data
+// only (rules.go untouched) breaks this tie.
+func runRuleTable(meta *common.Meta, outDir string) {
+	var items, idx []string
+	for _, g := range rulesdata.PrecompiledRules.RuleGroups {
+		if !claimRuleGroups[g.Name] {
+			continue
+		}
+		for _, r := range g.Rules {
+			var pats []string
+			for _, p := range r.SyntaxPatterns {
+				pats = append(pats, p.Value)
+			}
+			where := strings.Join(strings.Fields(r.WhereExpr.Src), " ")
+			if r.LocationVar != "" {
+				where += " @At(m[\"" + r.LocationVar + "\"])"
+			}
+			items = append(items, fmt.Sprintf("{| r_group := %s; r_patterns := %s; r_where := %s; r_suggest := %s; r_report := %s |}",
+				coqfmt.Str(g.Name), coqfmt.StrList(pats), coqfmt.Str(where), coqfmt.Str(r.SuggestTemplate), coqfmt.Str(r.ReportTemplate)))
+			idx = append(idx, fmt.Sprintf("IR %s: %d patterns where %q report %q", g.Name, len(pats), where, r.ReportTemplate))
+		}
+	}
+	common.WriteFile(filepath.Join(outDir, "cases_c12_rules_ir.v"),
+		"From GC Require Import Base Model_Expr Model_Rewrites Model_Claims.\n"+
+			"Definition observed : list rule := [\n"+strings.Join(items, ";\n")+"\n].\n"+
+			"Definition cases : list (rule * rule) := zip_rules claim_rules observed.\n"+
+			"Definition case_ok (c : rule * rule) : bool := rule_eqb (fst c) (snd c).\n"+
+			"Definition M := Eval vm_compute in (if Nat.eqb (List.length claim_rules) (List.length observed) then mismatches case_ok cases else [999%N]).\nPrint M.\n")
+	common.WriteFile(filepath.Join(outDir, "cases_c12_rules_ir.index.txt"), strings.Join(idx, "\n")+"\n")
+	meta.CaseFiles = append(meta.CaseFiles, "cases_c12_rules_ir.v")
+	meta.Evaluations += len(items)
+	meta.Distribution["claim_rules_compared_with_executed_ir"] = len(items)
+}
+
+// ---------------------------------------------------------------- callees that only LOOK like pure builtins
+
+// runShadowed: operands that are calls of user functions named like the pure builtins (len, cap shadowed by
+// local function values with effects and arbitrary results), in the shapes of every claim checker.  These
+// programs are outside the model (the converter resolves callees through go/types): oracle only.
+func runShadowed(meta *common.Meta, seed int64, outDir string) {
+	const prologue = "len := func(x []int) int { return fi() }; cap := func(x []int) int { return gi() }; _, _ = len, cap"
+	exprs := []string{
+		"len(xs) >= 0", "len(xs) < 0", "len(xs) >= 0x0", "cap(xs) >= 0",
+		"xs[len(xs)] == 0", "xs[len(xs)] != xs[0]",
+		"len(xs) < 1 && len(xs) > 5", "cap(xs) < 0 && cap(xs) > 3",
+		"len(xs) == len(xs)", "len(xs) != len(xs)", "len(xs) < len(xs)", "len(xs) >= len(xs)", "len(xs)-len(xs) == 0",
+		"cap(xs) == cap(xs)", "cap(xs) > cap(xs)", "len(xs) == len(mi)", "(len(xs)) == (len(xs))",
+	}
+	var src strings.Builder
+	src.WriteString(lintHeader + exprgen.LintPreamble)
+	for i, e := range exprs {
+		fmt.Fprintf(&src, "func sh%d(%s) bool {\n\t%s\n\treturn %s\n}\n", i, exprgen.Params, prologue, e)
+	}
+	l, err := exprgen.Load("shadow.go", src.String())
+	if err != nil {
+		panic(err)
+	}
+	rets := map[string]ast.Expr{}
+	for _, d := range l.File.Decls {
+		if fd, ok := d.(*ast.FuncDecl); ok && strings.HasPrefix(fd.Name.Name, "sh") && fd.Body != nil {
+			if rs, ok := fd.Body.List[len(fd.Body.List)-1].(*ast.ReturnStmt); ok {
+				rets[fd.Name.Name] = rs.Results[0]
+			}
+		}
+	}
+	type flag struct{ checker, text, expr string }
+	rg := common.NewRand(seed, "c12-shadow-grid")
+	var dcs []*exprgen.DiffCase
+	fired := map[string]int{}
+	for _, name := range []string{"sloppyLen", "badCond", "offBy1", "dupSubExpr", "dupArg"} {
+		ws, err := l.Run(name)
+		if err != nil {
+			panic(err)
+		}
+		for _, w := range ws {
+			ret := rets[l.FuncOf(w.Pos)]
+			if ret == nil {
+				continue
+			}
+			if (name == "sloppyLen" && !strings.Contains(w.Text, " is always ")) || (name == "badCond" && !strings.Contains(w.Text, "always false")) ||
+				(name == "offBy1" && !strings.Contains(w.Text, "always panics")) {
+				continue
+			}
+			node := findFlagged(l, ret, w.Pos, name, w.Text)
+			if node == nil {
+				continue
+			}
+			fired[name]++
+			text, expect := l.Text(node), "true"
+			switch name {
+			case "sloppyLen":
+				if strings.Contains(w.Text, "always false") {
+					expect = "false"
+				}
+			case "badCond":
+				expect = "false"
+			case "offBy1":
+				expect = "panic"
+			case "dupSubExpr":
+				b := node.(*ast.BinaryExpr)
+				text = "fmt.Sprint(" + l.Text(b.X) + ") == fmt.Sprint(" + l.Text(b.Y) + ")"
+			}
+			orig := "func() interface{} { " + prologue + "; return " + text + " }()"
+			dcs = append(dcs, &exprgen.DiffCase{ID: len(dcs), Kind: "expr", Orig: orig, Expect: expect, Inputs: exprgen.Grid(rg, orig+" fi gi", 60),
+				Tag: flag{name, w.Text, l.Text(node)}})
+		}
+	}
+	meta.Distribution["shadowed_builtin_claims_fired"] = fired
+	mm, evals, err := exprgen.RunDiff(filepath.Join(outDir, "obs_shadow"), dcs)
+	if err != nil {
+		panic(err)
+	}
+	meta.Evaluations += evals
+	for _, m := range mm {
+		f := m.Case.Tag.(flag)
+		meta.Fail("C12/"+f.checker+"/shadowed-builtin",
+			fmt.Sprintf("%s reports %q on `%s` where len/cap are user functions: observed %s", f.checker, f.text, f.expr, m.Orig),
+			map[string]interface{}{"expr": f.expr, "prologue": prologue, "message": f.text, "input": m.Input, "observed": m.Orig, "claimed": m.Case.Expect})
+	}
 }
